@@ -7,6 +7,7 @@ package jlib
 import (
 	"fmt"
 	"math"
+	"math/big"
 	"reflect"
 
 	"github.com/blues/jsonata-go/jtypes"
@@ -131,7 +132,19 @@ func Average(v reflect.Value) (float64, error) {
 	}
 
 	if math.IsInf(sum, 0) || math.IsNaN(sum) {
-		return 0, fmt.Errorf("the average function has resulted in a value that cannot be represented as a JSON number")
+		// The total does not fit into a float64, but the mean of
+		// finite numbers always does: add them up exactly.
+		total := new(big.Rat)
+		for i := 0; i < v.Len(); i++ {
+			n, _ := jtypes.AsNumber(v.Index(i))
+			r := new(big.Rat)
+			if r.SetFloat64(n) == nil {
+				return 0, fmt.Errorf("the average function has resulted in a value that cannot be represented as a JSON number")
+			}
+			total.Add(total, r)
+		}
+		mean, _ := total.Quo(total, new(big.Rat).SetInt64(int64(v.Len()))).Float64()
+		return mean, nil
 	}
 
 	return sum / float64(v.Len()), nil
